@@ -468,3 +468,33 @@ def family_names():
             b.add(["filter", [fn("greater_than", C("rk"), lit(0))]], ["mutate", [["d", fn("sub", ["col", "R@0", "a"], C("a"))]]])
         out.append({"tables": tables(), "pipe": b.pipe()})
     return out
+
+
+# ----------------------------------------------------------------------------------------- family S (automatic join suffixes)
+def family_suffix():
+    """joins without a user suffix in which a column of the left table already carries the name that the automatic
+    suffix would give to a column of the right table (`c_u`, `s_u`, `c_u_1`, `id_u`): the counter of the suffix search
+    has to move on, for clashing and for non-clashing right columns alike, and every column stays visible under its
+    own name"""
+    lefts = {
+        "c_u": [["rename", [["b", "c_u"]]]],                                  # right c does not clash by itself
+        "c_u+c_u_1": [["rename", [["b", "c_u"], ["p", "c_u_1"]]]],
+        "s_u": [["rename", [["b", "s_u"]]]],                                  # right s clashes and its suffixed name too
+        "id_u": [["rename", [["b", "id_u"]]]],
+        "mutated c_u": [["mutate", [["c_u", fn("add", C("b"), lit(1))]]]],
+        "a_u hidden": [["mutate", [["a_u", lit(1)]]], ["drop", [C("a_u")]]],  # a hidden left column has the name: no clash
+    }
+    out = []
+    for (ln, lsteps), how, on, fo in itertools.product(lefts.items(), ("inner", "left", "full"), ("id", "a"),
+                                                       ("none", "right_c", "select", "summarize")):
+        b, r = B("P", "t"), B("R", "u")
+        b.add(*[list(s) for s in lsteps])
+        b.add(["join", r.pipe(), [fn("equal", ["col", "P@0", on], ["col", "R@0", on])], how, None])
+        if fo == "right_c":
+            b.add(["mutate", [["rc", fn("coalesce", ["col", "R@0", "c"], lit(-1))]]])
+        elif fo == "select":
+            b.add(["select", [["col", "R@0", "c"], ["col", "P@0", "id"], ["col", "R@0", "s"]]])
+        elif fo == "summarize":
+            b.add(["summarize", [["n", fn("count_star")], ["mc", fn("max", ["col", "R@0", "c"])], ["ms", fn("min", ["col", "P@0", "a"])]]])
+        out.append({"tables": tables(), "pipe": b.pipe()})
+    return out
